@@ -12,7 +12,7 @@ from vpkit.strats import single_spec
 PROPERTY = "C04"
 LEVEL = "exploration"
 RULE = (
-    "cases = loss specs with a boundary term: stationary / non-stationary, dim 1 and 2, analytic network with 1..3 "
+    "cases = loss specs with a boundary term: stationary / non-stationary, dim 1 and 2, analytic-field network or real one-hidden-layer MLP with 1..3 "
     "outputs (closed-form gradient), non-zero analytic f returning (), (1,) or (k,), condition global "
     "('dirichlet','neumann','von neumann') or per facet with None facets, component selection None/int/slice, scalar "
     "or length-one weight, 1..3 time points, 1..4 border points per facet on random (negative, non-unit) boxes, "
